@@ -1,6 +1,7 @@
 (* C09: the theorems in the form Properties.v states them: for every element type and every
    comparator that is a strict weak order. *)
-From Tetl Require Import Lib.Base C06a.Model C09.Ops C09.Model C09.Spec C09.ProofsCore C09.ProofsOps C09.ProofsRun.
+From Tetl Require Import Lib.Base C06a.Model C09.Ops C09.Model C09.Spec C09.ProofsCore C09.ProofsOps C09.ProofsRun
+  C09.ProofsExtra.
 From Coq Require Import Sorting.Sorted Sorting.Permutation.
 
 Section Main.
@@ -58,6 +59,31 @@ Proof. exact (insert_present_key lt Hi Ht Hc). Qed.
 Lemma main_flat_multiset : forall input,
   exists l', fms_construct lt input = Ok l' /\ is_multiset_of lt input l'.
 Proof. exact (flat_multiset_sorted_perm lt Hi Ht Hc). Qed.
+
+Lemma main_refines_unbounded_std : forall k cap ops s2 tr2,
+  u_run lt k init ops = Some (s2, tr2) -> Forall (within cap) ops ->
+  Forall (fun e => length (snd e) <= cap) tr2 ->
+  run lt k cap init ops = Ok (s2, map (present_ev k) tr2)
+  /\ Forall (fun e => fst e <> SFull) tr2.
+Proof. exact (refines_unbounded_std lt Hi Ht Hc). Qed.
+
+Lemma main_spec_insert_meaning : forall x l, is_set lt l ->
+  let l' := fst (s_insert lt x l) in
+  let p := fst (snd (s_insert lt x l)) in
+  let b := snd (snd (s_insert lt x l)) in
+  is_set lt l'
+  /\ b = negb (existsb (eqv lt x) l)
+  /\ (forall e, In e l' <-> In e l \/ (b = true /\ e = x))
+  /\ (exists e, nth_error l' p = Some e /\ eqv lt x e = true /\ (b = true -> e = x)).
+Proof. exact (s_insert_meaning lt Hi Ht Hc). Qed.
+
+Lemma main_is_set_canonical : forall l1 l2, is_set lt l1 -> is_set lt l2 ->
+  (forall e, In e l1 <-> In e l2) -> l1 = l2.
+Proof. exact (is_set_canonical lt Hi Ht). Qed.
+
+Lemma main_flat_multiset_is_std_multiset : forall input,
+  fms_construct lt input = Ok (s_multiset_of_range lt input).
+Proof. exact (flat_multiset_is_std_multiset lt Hi Ht Hc). Qed.
 
 End Main.
 
